@@ -55,7 +55,7 @@ void gen_async_ops(Rng &g, run::Plan &p, int nops, bool ha, int neps) {
 		else if (kind == "CLOSE" || kind == "RESET") op.a = {(int64_t)g.below(neps), (int64_t)g.below(6)};
 		else if (kind == "REFUSE" || kind == "BLACKHOLE" || kind == "DNSFAIL") op.a = {(int64_t)g.below(neps), (int64_t)g.below(4)};
 		else if (kind == "SENDBUF") op.a = {(int64_t)g.below(neps), g.pickl<int64_t>({1, 2, 7, 10, 50, 100, 150, 1000, 1 << 22, 1 << 22})};
-		else if (kind == "SENDCUT") op.a = {(int64_t)g.below(neps), g.pickl<int64_t>({0, 1, 2, 3, 5, 64, 0})};
+		else if (kind == "SENDCUT") op.a = {(int64_t)g.below(neps), p.c("loginlen") >= 5000 ? g.pickl<int64_t>({0, 997, 4096, 65535, 0}) : g.pickl<int64_t>({0, 1, 2, 3, 5, 64, 0})};
 		else if (kind == "RECVCUT") op.a = {(int64_t)g.below(neps), g.pickl<int64_t>({0, 1, 2, 3, 4, 5, 100, 0})};
 		else if (kind == "CONNDELAY") op.a = {(int64_t)g.below(neps), g.pickl<int64_t>({0, 500, 3000, 15000})};
 		else if (kind == "JUMP") op.a = {g.pickl<int64_t>({-3600, -5, 5, 3600, 86400})};
